@@ -327,6 +327,17 @@ func TestDrive(t *testing.T) {
 		}
 		d.repoParse(base2, s)
 	}
+	// 3b. registries that are names of one service (Reference.Host maps docker.io to registry-1.docker.io): a Repository
+	// still is the registry it was made for - the other name is another registry
+	names := []string{"docker.io", "registry-1.docker.io", "index.docker.io", "DOCKER.IO", "docker.io:443", "localhost:5000", "localhost"}
+	for _, bn := range names {
+		for _, on := range names {
+			b := registry.Reference{Registry: bn, Repository: "library/x"}
+			for _, tail := range []string{"", ":" + mktag(), "@" + mkdigest(), ":" + mktag() + "@" + mkdigest()} {
+				d.repoParse(b, on+"/library/x"+tail)
+			}
+		}
+	}
 	d.rot.Close()
 	sum := fmt.Sprintf(`{"records":%d,"exhaustive_records":%d,"accepted":%d,"url_refs":%d,"len":%d,"files":[%s]}`,
 		d.n, exh, d.accepted, d.urls, L, quoteAll(d.rot.Files))
